@@ -56,7 +56,19 @@ def _esc(lines):
             return "rp:element-count-%s" % ("grew" if o.get("ne", 0) > i.get("ne", 0) else "shrank")
         if len(i.get("texts", [])) != len(o.get("texts", [])) or len(i.get("attrs", [])) != len(o.get("attrs", [])):
             return "rp:value-count-differs"
+        for x, y in zip(i.get("texts", []), o.get("texts", [])):
+            if x != y:
+                if x[:1] == [10] and y == [10] + x:
+                    # Render's "initial newline" rule applied to an element the parser does not strip it from
+                    return "rp:text-gains-leading-newline"
+                break
         return "rp:value-differs"
+    if e == "et":
+        toks = last.get("toks") or []
+        name = bytes(x & 255 for x in last.get("name") or []).decode("latin1").lower()
+        near = [r for r in ("iframe", "noembed", "noframes", "noscript", "plaintext", "script", "style", "textarea", "title", "xmp")
+                if name.startswith(r) or r.startswith(name)]
+        return "et:%s-tokens;name-%s" % (len(toks), ("near-" + near[0]) if near else "plain")
     if e == "dlv":
         w, c = last.get("w") or [], last.get("c") or []
         if last.get("boundary"):
